@@ -74,8 +74,12 @@ func main() {
 			"Definition viol := Eval vm_compute in spec_violations cases.\nPrint viol.\n" +
 			"Definition oof := Eval vm_compute in fuel_outs cases.\nPrint oof.\n",
 	}
-	st := &hx.Stats{Rule: "exhaustive strings over {/ . a} and {/ . a % C3A9(2 bytes)} up to a length bound + seeded random long inputs (lengths 100-300, straddling the 128-byte stack buffer) built from elements {'', '.', '..', 'ab', '...', '%2F', 'é', 'a.'} + exhaustive sequences of <= N elements over {'', '.', '..', 'a', 'ab'} (rooted and not) + random sequences of 3-12 prefix-related names {a, ab, abc, b, .a, a., ...} + a sweep of every length 124..134, rooted and not rooted, with the first modification at the head / middle / tail / nowhere + random byte strings (any byte value); non-trivial = input not already canonical (CleanPath(p) != p) or containing a dot element; distinct = distinct input strings"}
+	st := &hx.Stats{Rule: "exhaustive strings over {/ . a} and {/ . a % C3A9(2 bytes)} up to a length bound + seeded random long inputs (lengths 100-300, straddling the 128-byte stack buffer) built from elements {'', '.', '..', 'ab', '...', '%2F', 'é', 'a.'} + exhaustive sequences of <= N elements over {'', '.', '..', 'a', 'ab'} (rooted and not) + random sequences of 3-12 prefix-related names {a, ab, abc, b, .a, a., ...} + a sweep of every length 124..134, rooted and not rooted, with the first modification at the head / middle / tail / nowhere + random byte strings (any byte value) + every string up to a length bound over {/ . a % 2 e} + all concatenations of <= 2 (core: 3) tokens and random concatenations of 2-10 tokens from a dictionary of percent-escapes and dot fragments {%2e %2E %2f %2F %2e%2e %25 %252e %00 % %2 2e .. ... ./ /. ...} (escapes are opaque bytes) + each of the 256 byte values in 9 path shapes + random names over all 256 byte values; non-trivial = input not already canonical (CleanPath(p) != p) or containing a dot element or a '%'; distinct = distinct input strings"}
 	seen := map[string]bool{}
+	// cases are buffered and emitted interleaved (stride = number of shards): hx.Cases.Write cuts
+	// contiguous chunks, and the long inputs (expensive for coqc: time and memory) must not
+	// all land in the same one or two shards
+	var pending [][2]string
 	nontrivial := 0
 	add := func(p, kind string) {
 		if seen[p] {
@@ -94,7 +98,7 @@ func main() {
 			}
 		}
 		term := "(" + hx.Bytes(p) + ", " + hx.Opt(!pan, hx.Bytes(o)) + ", " + red + ")"
-		cs.Add(term, fmt.Sprintf("CleanPath(%s) = %s panic=%v", hx.Quote(p), hx.Quote(o), pan))
+		pending = append(pending, [2]string{term, fmt.Sprintf("CleanPath(%s) = %s panic=%v", hx.Quote(p), hx.Quote(o), pan)})
 		st.Count("kind:" + kind)
 		st.Count(fmt.Sprintf("len:%03d-%03d", len(p)/32*32, len(p)/32*32+31))
 		if pan {
@@ -104,7 +108,7 @@ func main() {
 		} else {
 			st.Count("outcome:changed")
 		}
-		if pan || o != p || strings.Contains(p, "/.") {
+		if pan || o != p || strings.Contains(p, "/.") || strings.Contains(p, "%") {
 			nontrivial++
 		}
 		if len(st.Samples) < 12 && (len(p) > 3 && o != p) && rnd.Pct(2) {
@@ -237,8 +241,92 @@ func main() {
 		}
 		add(string(b), "malformed-bytes")
 	}
+	// percent-escapes are three opaque bytes for CleanPath (byte-level, no decoding):
+	// (1) every string up to a length bound over {/ . a % 2 e}
+	l6 := 5
+	if tier == "thorough" {
+		l6 = 6
+	}
+	enumerate([]string{"/", ".", "a", "%", "2", "e"}, l6, func(s string) { add(s, "exh6-pct") })
+	// (2) token dictionary: all concatenations of <= 3 tokens (rooted and not), then random
+	// concatenations of 2-10 tokens (not only '/'-joined: tokens may glue into names)
+	toks := []string{"/", ".", "..", "...", "./", "/.", "a", "ab", "%2e", "%2E", "%2f", "%2F",
+		"%2e%2e", "%2E%2E", "%2e.", ".%2e", "%25", "%252e", "%00", "%c3%a9", "%", "%2", "2e", "%e2", "%2g", "+", "\\"}
+	core := []string{"/", ".", "..", "a", "%2e", "%2E", "%2f", "%2e%2e", "%25", "%"}
+	triples := func(d1, d2, d3 []string) {
+		for _, a := range d1 {
+			for _, b := range d2 {
+				for _, c := range d3 {
+					add("/"+a+b+c, "exh-tokens")
+					add(a+b+c, "exh-tokens")
+				}
+			}
+		}
+	}
+	triples(toks, append([]string{""}, toks...), []string{""}) // <= 2 tokens of the full dictionary
+	triples(core, core, core)                                   // 3 tokens of the core dictionary
+	if tier == "thorough" {
+		triples(toks, toks, toks)
+	}
+	ntok := 1500
+	if tier == "thorough" {
+		ntok = 20000
+	}
+	for i := 0; i < ntok; i++ {
+		k := rnd.Range(2, 10)
+		var sb strings.Builder
+		if rnd.Pct(75) {
+			sb.WriteByte('/')
+		}
+		for j := 0; j < k; j++ {
+			sb.WriteString(hx.Pick(rnd, toks))
+			if rnd.Pct(50) {
+				sb.WriteByte('/')
+			}
+		}
+		add(sb.String(), "random-tokens")
+	}
+	// (3) every byte value 0..255 as an element byte, in positions that are copied,
+	// backtracked over, compared with stale bytes of p, or followed by a dot element
+	for v := 0; v < 256; v++ {
+		c := string([]byte{byte(v)})
+		for _, f := range []string{"/%s", "%s", "/a%s/", "/%s%s/../%s", "/a/%s/./b/..", "//%s/.", "/ab/../a%s/", "%s/../%s%s", "/.%s/..%s/"} {
+			add(strings.ReplaceAll(f, "%s", c), "all-bytes")
+		}
+	}
+	// random names over all 256 byte values, joined with dot elements
+	nab := 600
+	if tier == "thorough" {
+		nab = 8000
+	}
+	for i := 0; i < nab; i++ {
+		k := rnd.Range(2, 8)
+		parts := make([]string, k)
+		for j := range parts {
+			switch rnd.Intn(5) {
+			case 0:
+				parts[j] = hx.Pick(rnd, []string{"", ".", "..", "..."})
+			default:
+				b := make([]byte, rnd.Range(1, 4))
+				for x := range b {
+					b[x] = byte(rnd.Intn(256))
+				}
+				parts[j] = string(b)
+			}
+		}
+		body := strings.Join(parts, "/")
+		if rnd.Pct(75) {
+			body = "/" + body
+		}
+		add(body, "random-all-bytes")
+	}
 	if len(st.Samples) == 0 {
 		st.Samples = append(st.Samples, "CleanPath(\"/a/../b/.\") = "+hx.Quote(fox.CleanPath("/a/../b/.")))
+	}
+	for b := 0; b < shards; b++ {
+		for i := b; i < len(pending); i += shards {
+			cs.Add(pending[i][0], pending[i][1])
+		}
 	}
 	st.Evaluations = cs.Len()
 	st.DistinctNontrivial = nontrivial
@@ -246,7 +334,10 @@ func main() {
 	st.Extra = map[string]any{"exhaustive_scopes": []string{
 		fmt.Sprintf("all strings of length <= %d over {/ . a}", l3),
 		fmt.Sprintf("all strings of <= %d symbols over {/ . a %% é}", l5),
-		fmt.Sprintf("all '/'-joined sequences of <= %d elements over {'', '.', '..', 'a', 'ab'}, rooted and not rooted", lel)}}
+		fmt.Sprintf("all '/'-joined sequences of <= %d elements over {'', '.', '..', 'a', 'ab'}, rooted and not rooted", lel),
+		fmt.Sprintf("all strings of length <= %d over {/ . a %% 2 e}", l6),
+		fmt.Sprintf("all concatenations of <= 2 tokens of a %d-token dictionary of percent-escapes and dot fragments and of 3 tokens of its %d-token core (thorough: 3 of the full dictionary), rooted and not rooted", len(toks), len(core)),
+		"each byte value 0..255 substituted in 9 path shapes"}}
 	hx.Fatal(cs.Write(out, shards))
 	hx.Fatal(st.Write(out))
 	fmt.Printf("c17: %d cases written to %s\n", cs.Len(), out)
